@@ -24,7 +24,8 @@ MetaOf(e) == [rel |-> e.rel,
               expr |-> <<"b", e.name>>,
               sk |-> IF e.rel = "scale" THEN e.sk ELSE 0,
               d |-> IF e.rel = "translate" THEN e.d ELSE <<0, 0>>,
-              t |-> IF e.rel = "sym" THEN e.t ELSE 0]
+              t |-> IF e.rel = "sym" THEN e.t ELSE 0,
+              big |-> e.big, touch |-> e.touch]
 
 Init == r \in 1..Len(Sessions) /\ l = 1 /\ BInit
 
